@@ -2,6 +2,7 @@ package gen
 
 import (
 	"fmt"
+	"strings"
 
 	"verif/harness/ast"
 
@@ -159,13 +160,28 @@ func (g *SG) stmt(c *sctx) []*ast.Node {
 		ic := inner(c, "for", f)
 		g.noteNest(c, "for")
 		var post *ast.Node
-		if g.bool("tickpost") && g.hasFun("tick") {
+		var cond *ast.Node = ast.Bin("<", ast.Id(f), g.bound())
+		switch {
+		case g.hasFun("tickx") && g.int(0, 7, "stoppost") == 0:
+			// the post-expression (or the condition) calls a function that ends the
+			// rule (next) or the run (exit) at a given step
+			stop := rapid.SampledFrom([]string{"tickx", "tickn"}).Draw(g.T, "stopper")
+			call := ast.Call(ast.Id(stop), ast.Str(f), ast.Id(f), ast.Num(fmt.Sprint(g.int(0, 3, "stopat"))))
+			if g.bool("stopincond") {
+				post = ast.Post("++", ast.Id(f))
+				cond = ast.Bin("<", ast.Bin("-", call, ast.Num("1")), g.bound())
+				g.Labels["for-cond-stops-run-or-rule"] = true
+			} else {
+				post = ast.Set(ast.Id(f), call)
+				g.Labels["for-post-stops-run-or-rule"] = true
+			}
+		case g.bool("tickpost") && g.hasFun("tick"):
 			post = ast.Set(ast.Id(f), ast.Call(ast.Id("tick"), ast.Str(f), ast.Id(f)))
 			g.Labels["for-post-traced"] = true
-		} else {
+		default:
 			post = ast.Post("++", ast.Id(f))
 		}
-		loop := ast.For(ast.Set(ast.Id(f), ast.Num("0")), ast.Bin("<", ast.Id(f), g.bound()), post, g.body(ic, false))
+		loop := ast.For(ast.Set(ast.Id(f), ast.Num("0")), cond, post, g.body(ic, false))
 		return []*ast.Node{loop}
 	case k <= 13: // for-in
 		return []*ast.Node{g.forIn(c)}
@@ -218,7 +234,7 @@ func (g *SG) stmt(c *sctx) []*ast.Node {
 		return []*ast.Node{ast.If(g.cond(c), ast.Block(g.trace(c), kw))}
 	case k == 17 && len(g.Funs) > 0 && !c.inFunc: // call a tracing function
 		f := g.Funs[g.int(0, len(g.Funs)-1, "fn")]
-		if f.Name == "tick" {
+		if strings.HasPrefix(f.Name, "tick") {
 			return []*ast.Node{g.trace(c)}
 		}
 		args := make([]*ast.Node, f.Arity)
